@@ -235,10 +235,17 @@ impl<Effect, Event> Command<Effect, Event> {
         //
         // Note that there is an exception: the task may have used the waker and dropped it,
         // making it ready, rather than abandoned.
-        let task_is_ready = arc_waker.woken.load(Ordering::Acquire);
+        //
+        // The reference count must be read _before_ the `woken` flag: a waker sets the flag
+        // before its clone is dropped, so once no other clone is left every wake that has
+        // happened is visible in the flag. Read the other way round, a wake on another thread
+        // between the two reads makes a task which has just been woken look abandoned.
+        let no_other_wakers = Arc::strong_count(&arc_waker) < 2;
+        std::sync::atomic::fence(Ordering::Acquire);
         #[cfg(crux_verif)]
         crate::verif::point("ct_count");
-        if result == TaskState::Suspended && !task_is_ready && Arc::strong_count(&arc_waker) < 2 {
+        let task_is_ready = arc_waker.woken.load(Ordering::Acquire);
+        if result == TaskState::Suspended && no_other_wakers && !task_is_ready {
             return TaskState::Cancelled;
         }
 
